@@ -319,6 +319,48 @@ func c14SameStrings(a, b []string) bool {
 	return true
 }
 
+// c14MultisetDiff returns the elements of got not matched in want, and of
+// want not matched in got.
+func c14MultisetDiff(got, want []string) (extra, missing []string) {
+	n := map[string]int{}
+	for _, w := range want {
+		n[w]++
+	}
+	for _, g := range got {
+		if n[g] > 0 {
+			n[g]--
+		} else {
+			extra = append(extra, g)
+		}
+	}
+	for w, k := range n {
+		for ; k > 0; k-- {
+			missing = append(missing, w)
+		}
+	}
+	sort.Strings(extra)
+	sort.Strings(missing)
+	return
+}
+
+// c14KeysNamed returns the sorted set of candidate key names that occur in the
+// text as whole words (words are separated by blanks, commas, semicolons).
+func c14KeysNamed(text string, candidates map[string]bool) []string {
+	seen := map[string]bool{}
+	for _, w := range strings.FieldsFunc(text, func(r rune) bool { return r == ' ' || r == ',' || r == ';' || r == '\t' }) {
+		w = strings.Trim(w, "\"'()")
+		if candidates[w] {
+			seen[w] = true
+		}
+	}
+	var out []string
+	for w := range seen {
+		out = append(out, w)
+	}
+	sort.Strings(out)
+	return out
+}
+
 func c14Geomean(xs []float64) float64 {
 	if len(xs) == 0 {
 		return math.NaN()
@@ -398,6 +440,10 @@ func c14Check(cs c14Case) *kit.Fail {
 		}
 	}
 	residueCells := 0
+	residueNames := map[string]bool{".fullname": true}
+	for _, k := range bsgen.CfgKeys {
+		residueNames[k] = true
+	}
 	for id, et := range ex.tables {
 		gt := got[id]
 		var assumption benchmath.Assumption = benchmath.AssumeNothing
@@ -509,19 +555,30 @@ func c14Check(cs c14Case) *kit.Fail {
 				if gcell.P != wantP {
 					return kit.Failf("cell-pvalue", "%s: p/n %q, expected %q against first column %q%s", where, gcell.P, wantP, baseID, ctx())
 				}
+				// Warnings of the summary come from benchmath (same call in the
+				// oracle, so their wording is shared). The residue warning is
+				// recognised by the KEYS it names, not by its wording: it is the
+				// one warning left over, and the set of residue key names that
+				// occur in it as words must be exactly the keys that differ.
 				wantWarn := c14ErrStrings(st.sum.Warnings)
-				if ns := c14NonSingular(ecell); len(ns) > 0 {
-					residueCells++
-					wantWarn = append(wantWarn, "benchmarks vary in "+strings.Join(ns, ", "))
+				extra, missing := c14MultisetDiff(gcell.CenterWarn, wantWarn)
+				if len(missing) > 0 {
+					return kit.Failf("cell-warning", "%s: warnings %q lack %q%s", where, gcell.CenterWarn, missing, ctx())
 				}
-				if g, w := c14NormWarn(gcell.CenterWarn), c14NormWarn(wantWarn); !c14SameStrings(g, w) {
-					sig := "cell-warning"
-					for _, s := range append(g, w...) {
-						if strings.HasPrefix(s, "benchmarks vary in") {
-							sig = "cell-residue-warning"
-						}
+				ns := c14NonSingular(ecell)
+				if len(ns) > 0 {
+					residueCells++
+				}
+				switch {
+				case len(ns) == 0 && len(extra) > 0:
+					return kit.Failf("cell-residue-warning", "%s: spurious warning(s) %q: all results of the cell agree in every key that is neither projected nor ignored%s", where, extra, ctx())
+				case len(ns) > 0 && len(extra) != 1:
+					return kit.Failf("cell-residue-warning", "%s: results differ in %q, expected exactly one warning naming them, got %q%s", where, ns, extra, ctx())
+				case len(ns) > 0:
+					named := c14KeysNamed(extra[0], residueNames)
+					if !c14SameStrings(named, ns) {
+						return kit.Failf("cell-residue-warning", "%s: warning %q names %q, but the results differ in exactly %q%s", where, extra[0], named, ns, ctx())
 					}
-					return kit.Failf(sig, "%s: warnings %q, expected %q%s", where, g, w, ctx())
 				}
 				if g, w := c14NormWarn(gcell.DeltaWarn), c14NormWarn(wantDeltaWarn); !c14SameStrings(g, w) {
 					return kit.Failf("cell-compare-warning", "%s: comparison warnings %q, expected %q%s", where, g, w, ctx())
@@ -554,17 +611,52 @@ func c14Check(cs c14Case) *kit.Fail {
 				}
 			}
 			where := fmt.Sprintf("table %q geomean of column %q", id, cid)
-			warn := map[string]bool{}
-			for _, w := range gt.GeoWarn[e] {
-				warn[w] = true
-			}
+			// The statement fixes WHEN the geomean row carries warnings (benchmark
+			// sets differ; centres not positive; ratios not positive), not their
+			// wording. The present wording is recognised; a warning with another
+			// wording is attributed to the expected conditions by count.
 			const wDiffer = "benchmark set differs from baseline; geomeans may not be comparable"
 			const wSum = "summaries must be >0 to compute geomean"
 			const wRatio = "ratios must be >0 to compute geomean"
-			for w := range warn {
-				if w != wDiffer && w != wSum && w != wRatio {
-					return kit.Failf("geomean-warning", "%s: unknown warning %q%s", where, w, ctx())
+			warn := map[string]bool{}
+			unknown := 0
+			for _, w := range gt.GeoWarn[e] {
+				if w == wDiffer || w == wSum || w == wRatio {
+					warn[w] = true
+				} else {
+					unknown++
 				}
+			}
+			if unknown > 0 {
+				// expected number of warnings for this column
+				wantN := 0
+				if math.IsNaN(c14Geomean(centres)) {
+					wantN++
+				}
+				if e > 0 {
+					if nBase != len(ratios) {
+						wantN++
+					}
+					if !zeroBase && math.IsNaN(c14Geomean(ratios)) {
+						wantN++
+					}
+				}
+				if zeroBase {
+					kit.Count("geomean_zero_base_skipped", 1)
+				} else if len(gt.GeoWarn[e]) != wantN {
+					return kit.Failf("geomean-warning", "%s: %d warning(s) %q, expected %d (sets differ: %v, centres %v, ratios %v)%s", where, len(gt.GeoWarn[e]), gt.GeoWarn[e], wantN, e > 0 && nBase != len(ratios), centres, ratios, ctx())
+				}
+				kit.Count("geomean_warnings_with_unknown_wording", int64(unknown))
+				// numbers are still checked below where they do not depend on the wording
+				if g := c14Geomean(centres); !math.IsNaN(g) {
+					v, perr := strconv.ParseFloat(gt.GeoCenter[e], 64)
+					if perr != nil || !c14Close(v, g) {
+						return kit.Failf("geomean-centre", "%s: shows %q, geometric mean of %v is %v%s", where, gt.GeoCenter[e], centres, g, ctx())
+					}
+				} else if gt.GeoCenter[e] != "" {
+					return kit.Failf("geomean-nonpositive", "%s: centres %v are not all positive but row shows %q%s", where, centres, gt.GeoCenter[e], ctx())
+				}
+				continue
 			}
 			gm := c14Geomean(centres)
 			if math.IsNaN(gm) {
